@@ -1,0 +1,65 @@
+//go:build verif
+
+// Contracts for the verification machinery in /verif (comment-only; never compiled into a binary).
+// Property C16 (eviction-cap half): evictions issued never exceed the configured caps; counters equal
+// the evictions issued; a refused eviction has no side effect.
+
+package evictions
+
+//@ spec func limOK(pe *EvictionLimiter) bool = pe != nil && pe.nodePodCount != nil && pe.namespacePodCount != nil && pe.nodePodCount != pe.namespacePodCount
+
+//@ spec func headroom(pe *EvictionLimiter, pod *corev1.Pod) bool = (pod.Spec.NodeName == "" || pe.maxPodsToEvictPerNode == nil || pe.nodePodCount[pod.Spec.NodeName] + 1 <= deref(pe.maxPodsToEvictPerNode)) && (pe.maxPodsToEvictPerNamespace == nil || pe.namespacePodCount[pod.ObjectMeta.Namespace] + 1 <= deref(pe.maxPodsToEvictPerNamespace)) && (pe.maxPodsToEvictTotal == nil || pe.totalCount + 1 <= deref(pe.maxPodsToEvictTotal))
+
+//@ func (*EvictionLimiter).AllowEvict [C16]
+//@   requires limOK(pe) && pod != nil
+//@   ensures #iff: result <==> headroom(pe, pod)
+//@   modifies nothing
+
+//@ func (*EvictionLimiter).Done [C16]
+//@   requires limOK(pe) && pod != nil
+//@   ensures #total: pe.totalCount == old(pe.totalCount) + 1
+//@   ensures #ns: forall ns string :: pe.namespacePodCount[ns] == old(pe.namespacePodCount[ns]) + (ns == pod.ObjectMeta.Namespace ? 1 : 0)
+//@   ensures #node: forall n string :: pe.nodePodCount[n] == old(pe.nodePodCount[n]) + (n == pod.Spec.NodeName && n != "" ? 1 : 0)
+//@   modifies pe.totalCount, contents(pe.nodePodCount), contents(pe.namespacePodCount)
+
+//@ func (*EvictionLimiter).Reset [C16]
+//@   requires pe != nil
+//@   ensures #zero: pe.totalCount == 0 && (forall n string :: pe.nodePodCount[n] == 0) && (forall ns string :: pe.namespacePodCount[ns] == 0)
+//@   modifies pe.totalCount, pe.nodePodCount, pe.namespacePodCount
+
+//@ func (*EvictionLimiter).TotalEvicted [C16]
+//@   requires pe != nil
+//@   ensures result == pe.totalCount
+//@   modifies nothing
+
+//@ func (*EvictionLimiter).NodeEvicted [C16]
+//@   requires pe != nil
+//@   ensures result == pe.nodePodCount[nodeName]
+//@   modifies nothing
+
+//@ func (*EvictionLimiter).NamespaceEvicted [C16]
+//@   requires pe != nil
+//@   ensures result == pe.namespacePodCount[namespace]
+//@   modifies nothing
+
+//@ spec func evOK(pe *PodEvictor) bool = pe != nil && pe.nodepodCount != nil && pe.namespacePodCount != nil && pe.nodepodCount != pe.namespacePodCount
+
+//@ spec func nodeAtCap(pe *PodEvictor, n string) bool = pe.maxPodsToEvictPerNode != nil && pe.nodepodCount[n] == deref(pe.maxPodsToEvictPerNode)
+//@ spec func nsAtCap(pe *PodEvictor, ns string) bool = pe.maxPodsToEvictPerNamespace != nil && pe.namespacePodCount[ns] == deref(pe.maxPodsToEvictPerNamespace)
+//@ spec func capsHold(pe *PodEvictor) bool = (pe.maxPodsToEvictPerNode != nil ==> (forall n string :: pe.nodepodCount[n] <= deref(pe.maxPodsToEvictPerNode))) && (pe.maxPodsToEvictPerNamespace != nil ==> (forall ns string :: pe.namespacePodCount[ns] <= deref(pe.maxPodsToEvictPerNamespace)))
+
+// EvictPod only talks to the API server through the client interface; it touches no PodEvictor state.
+//@ func EvictPod [C16]
+//@   modifies nothing
+//@   option trusted
+
+//@ func (*PodEvictor).Evict [C16]
+//@   requires evOK(pe) && pod != nil
+//@   requires capsHold(pe)
+//@   ensures #caps: capsHold(pe)
+//@   ensures #atcap: old(nodeAtCap(pe, pod.Spec.NodeName)) || old(nsAtCap(pe, pod.ObjectMeta.Namespace)) ==> !result && calls("EvictPod") == 0
+//@   ensures #dryrun: pe.dryRun ==> calls("EvictPod") == 0
+//@   ensures #once: calls("EvictPod") <= 1
+//@   ensures #refused: !result || pe.dryRun ==> pe.totalCount == old(pe.totalCount) && (forall n string :: pe.nodepodCount[n] == old(pe.nodepodCount[n])) && (forall ns string :: pe.namespacePodCount[ns] == old(pe.namespacePodCount[ns]))
+//@   ensures #counted: result && !pe.dryRun ==> calls("EvictPod") == 1 && pe.totalCount == old(pe.totalCount) + 1 && (forall ns string :: pe.namespacePodCount[ns] == old(pe.namespacePodCount[ns]) + (ns == pod.ObjectMeta.Namespace ? 1 : 0)) && (forall n string :: pe.nodepodCount[n] == old(pe.nodepodCount[n]) + (n == pod.Spec.NodeName && n != "" ? 1 : 0))
+//@   modifies pe.totalCount, contents(pe.nodepodCount), contents(pe.namespacePodCount)
